@@ -84,6 +84,8 @@ type Kernel struct {
 	// Starvation bias, drawn once per run: one class of goroutines (by hook-point family, or a pseudo-random
 	// subset of actors) is released 8x or 64x less often than the others, so that orderings which need one
 	// party to lag far behind (a slow WARC writer, a slow queue sender) are reached with useful probability.
+	LazyClock  bool
+	lazySet    bool
 	slowInit   bool
 	slowPrefix string
 	slowSel    int // -1: none; otherwise actors with fnv(actor)%5 == slowSel
@@ -95,6 +97,15 @@ var slowClasses = []string{"warc.write", "lq.fin", "lq.prod", "lq.sender", "lq.f
 func (k *Kernel) initSlow() {
 	k.slowInit = true
 	k.slowSel = -1
+	// lazy clock (a quarter of the runs): simulated time passes only when no busy goroutine is parked, as on a machine
+	// that is fast compared with every timer. Bursts then fit inside one timer period (size-triggered batches, several
+	// requests inside one limiter window), which the default mix of releases and clock advances almost never produces.
+	if !k.lazySet {
+		k.LazyClock = k.tape.DrawSched(4) == 0
+		if k.LazyClock {
+			k.logSched("lazy-clock", "")
+		}
+	}
 	switch k.tape.DrawSched(4) {
 	case 2:
 		k.slowDiv = 8
@@ -116,6 +127,9 @@ func (k *Kernel) initSlow() {
 func (k *Kernel) SetSlow(prefix string, div int) {
 	if div <= 1 {
 		div = 64
+	}
+	if !k.lazySet {
+		k.LazyClock, k.lazySet = k.tape.DrawSched(4) == 0, true
 	}
 	k.slowInit, k.slowPrefix, k.slowSel, k.slowDiv = true, prefix, -1, div
 	if strings.HasPrefix(prefix, "~") {
@@ -409,6 +423,17 @@ func (k *Kernel) Run(hook func()) string {
 			k.tape.Draw(1)
 		} else {
 			advW := k.AdvanceWeight
+			if !k.slowInit {
+				k.initSlow()
+			}
+			if k.LazyClock {
+				for _, pg := range P {
+					if k.idleFn == nil || !k.idleFn(pg.ev) {
+						advW = 0
+						break
+					}
+				}
+			}
 			for _, pg := range P {
 				if pg.ev.Point == "sim.yield" {
 					// a statement-level yield models an instantaneous preemption, not a sleep: the clock stands still
